@@ -45,7 +45,7 @@ Section Machine.
     match visit with
     | None => inl (Some (ky, v), lg)
     | Some f =>
-        let lg' := lg ++ [EVisit p ky (erase v)] in
+        let lg' := lg ++ [EVisit p ky (oref_of v) (erase v)] in
         match f p ky (erase v) with
         | Some a => inl (apply_action oval a ky v, lg')
         | None => if reraise then inr lg' else inl (Some (ky, v), lg')
